@@ -4,7 +4,7 @@
    heap allocation itself (escape analysis, sync.Pool retention, the allocator) is measured
    on the real router by harness/cmd/c16, not modelled.  See docs/C16.md. *)
 From FoxBase Require Import Bytes.
-From FoxRoute Require Import Node Lookup Tree Alloc Alloc2.
+From FoxRoute Require Import Node Lookup Tree Alloc Alloc2 AllocHist AllocHist2.
 
 (* the full property, visible but NOT provable in a Gallina model (never used as a hypothesis):
    "heap allocations of ServeHTTP on a matching request in steady state = 0".  Its model-level
@@ -110,3 +110,33 @@ Example insert_keeps_wroots_example :
              /\ wroots (t_roots t') = 2 /\ t_maxparams t' = 2.
 Proof. exact Alloc2.insert_keeps_wroots_example. Qed.
 Print Assumptions insert_keeps_wroots_example.
+
+(* round 7 (seeded change C16-N): the context a handler is handed.  The theorems above size the serving
+   context from the routed tree (txn_caps t); the case files now also observe the context itself
+   (AllocHist.x_handed_ok: owned by the published tree, capacities at least txn_caps).  Any such context
+   fits params / tsrParams ... *)
+Theorem handed_context_params_fit : forall f (t : txn) m host path lazy tps0 caps,
+  wroots (t_roots t) <= t_maxparams t ->
+  hw_le (txn_caps t) caps ->
+  let h := snd (roots_lookupI f (t_roots t) m host path lazy [] tps0 hw0) in
+  grow_ps caps h = false /\ grow_tps caps h = false.
+Proof. exact AllocHist2.handed_context_params_fit. Qed.
+Print Assumptions handed_context_params_fit.
+(* ... and the hypothesis is needed: a context sized by the tree published before a registration
+   (in flight across the write) has to grow on the tree published after it, the new tree's own do not *)
+Theorem foreign_context_can_grow :
+  exists (t_old t_new : txn) ri m host path,
+    insert t_old m ri = ROk t_new /\
+    wroots (t_roots t_old) <= t_maxparams t_old /\
+    wroots (t_roots t_new) <= t_maxparams t_new /\
+    grow_ps (txn_caps t_old) (serve_marks (t_roots t_new) m host path []) = true /\
+    grow_ps (txn_caps t_new) (serve_marks (t_roots t_new) m host path []) = false.
+Proof. exact AllocHist2.foreign_context_can_grow. Qed.
+Print Assumptions foreign_context_can_grow.
+Example handed_ok_example :
+  x_agrees (hist_case (Some (true, caps_of 3 1))) = true /\
+  x_handed_ok (hist_case (Some (false, caps_of 3 1))) = false /\
+  x_handed_ok (hist_case (Some (true, caps_of 1 1))) = false /\
+  x_handed_ok (hist_case None) = false.
+Proof. exact AllocHist2.handed_ok_example. Qed.
+Print Assumptions handed_ok_example.
